@@ -92,7 +92,7 @@ func (mtrs *Store) LatestValid(name string) []*api.Metric {
 }
 
 // AllMetrics returns the latest metrics for all peers and metrics types.  It
-// may return expired metrics.
+// may return expired and invalid metrics.
 func (mtrs *Store) AllMetrics() []*api.Metric {
 	mtrs.mux.RLock()
 	defer mtrs.mux.RUnlock()
@@ -102,7 +102,7 @@ func (mtrs *Store) AllMetrics() []*api.Metric {
 	for _, byPeer := range mtrs.byName {
 		for _, window := range byPeer {
 			metric, err := window.Latest()
-			if err != nil || !metric.Valid {
+			if err != nil {
 				continue
 			}
 			result = append(result, metric)
